@@ -60,14 +60,16 @@ def run(prog, rep, tier):
     r6_2(prog, rep, pp)
     r6_3(prog, rep, pp)
     n = shared.ownership_rule(prog, rep, "R6.4")
-    if n < 20:
-        raise AnalysisError(f"R6.4: only {n} Term/GroupSpecificTerm constructor sites found in terms.py (floor 20)")
+    if n < 12:
+        raise AnalysisError(f"R6.4: only {n} Term/GroupSpecificTerm constructor sites found in terms.py (floor 12)")
     r6_5(prog, rep, pp)
     r6_6(prog, rep, pp)
+    # R6.7 rows of groups seen in training keep their slots: the new-group block is decided from the factor's indicators alone
+    shared.new_group_block(prog, rep, "R6.7")
     rep.floor("R6.1", 8)
     rep.floor("R6.2", 8)
     rep.floor("R6.3", 6)
-    rep.floor("R6.4", 20)
+    rep.floor("R6.4", 12)
     rep.floor("R6.5", 6)
     rep.floor("R6.6", 10)
 
@@ -297,7 +299,69 @@ def aggregate_obligations(prog, rep, pp, rule, restrict=None):
     return count
 
 
+SIZE_CONTEXT_CALLS = {"np.ones", "np.zeros", "np.empty", "np.full", "np.arange", "range", "np.eye", "np.tile", "np.repeat", "np.linspace"}
+
+
+def row_count_uses(prog, rep, pp, rule):
+    """`X.shape[0]` / `len(X)` of the frame being evaluated may size an allocation or feed a raising test, never a value"""
+    fns = set(pp.path) | set(pp.reg_funcs)
+    for q in pp.stateful | pp.transient:
+        cls = prog.classes[q]
+        if "Encoding" in cls.bases or cls.name == "Encoding":
+            continue  # encodings receive level lists, not rows
+        fns |= {m.qual for m in cls.methods.values()}
+    fns = {q for q in fns if not (prog.functions[q].cls is not None and ("Encoding" in prog.functions[q].cls.bases))}
+    n = 0
+    for q in sorted(fns):
+        f = prog.functions[q]
+        if f.parent is not None:
+            continue
+        cls = f.cls
+        tf = _transient_fields(prog, cls) if cls is not None and cls.qual in pp.transient else ()
+        tainted = DF.taint_closure(f, _sources(f), tainted_fields=tf)
+        for root in DF.function_nodes(f):
+            parents = {}
+            for p_ in ast.walk(root):
+                for ch in ast.iter_child_nodes(p_):
+                    parents[id(ch)] = p_
+            for node in ast.walk(root):
+                is_count = False
+                if isinstance(node, ast.Subscript) and isinstance(node.value, ast.Attribute) and node.value.attr == "shape" \
+                        and unparse(node.slice) == "0" and DF._names_loaded(node.value.value) & tainted:
+                    is_count = True
+                if isinstance(node, ast.Call) and dotted(node.func) == "len" and node.args and DF._names_loaded(node.args[0]) & tainted:
+                    is_count = True
+                if not is_count:
+                    continue
+                n += 1
+                up, ctx_ok, why = node, False, ""
+                while id(up) in parents:
+                    up = parents[id(up)]
+                    if isinstance(up, ast.Call) and dotted(up.func) in SIZE_CONTEXT_CALLS:
+                        ctx_ok, why = True, f"sizes the allocation `{dotted(up.func)}(...)`"
+                        break
+                    if isinstance(up, ast.Compare):
+                        ctx_ok, why = True, "only compared"
+                        break
+                    if isinstance(up, ast.Call) and isinstance(up.func, ast.Attribute) and up.func.attr == "reshape":
+                        ctx_ok, why = True, "reshape argument"
+                        break
+                    if isinstance(up, ast.stmt):
+                        break
+                g = None
+                if not ctx_ok and cls is not None and cls.qual in pp.stateful:
+                    ctx = pp.class_guard_context(cls)
+                    g, wf = _guard_for(pp, cls, ctx, f, node)
+                    if g is not None:
+                        closed, w2 = pp.guard_closed(cls, wf, g)
+                        ctx_ok, why = closed, f"training-time estimate under `{unparse(g['ifnode'].test)}`; {w2}"
+                obl(rep, f, node, rule, ctx_ok, f"row count `{short(node)}` of the frame being evaluated in {f.name}", why,
+                    "the number of rows of the frame being evaluated is used as a value: results for a row depend on how many other rows are predicted with it")
+    return n
+
+
 def r6_2(prog, rep, pp):
+    row_count_uses(prog, rep, pp, "R6.2")
     n = aggregate_obligations(prog, rep, pp, "R6.2")
     if n < 8:
         raise AnalysisError(f"R6.2: only {n} aggregate sites found on the prediction path (floor 8): catalogue or taint analysis is not matching")
